@@ -509,7 +509,14 @@ pub fn gen_vop(rng: &mut Rng, len: usize, vmax: u32, oob: bool, trav: bool, maxl
         return match k {
             0 if grow_ok => {
                 // mostly short; now and then a chunk of dozens of values (longer than small limits and views)
-                let n = if rng.chance(1, 8) { rng.range(4, 40) } else { rng.below(4) };
+                // (scale mode: one append in five carries more than a thousand values)
+                let n = if vmax >= 20_000 && maxlen > 4000 && rng.chance(1, 5) {
+                    rng.range(1024, 3000)
+                } else if rng.chance(1, 8) {
+                    rng.range(4, 40)
+                } else {
+                    rng.below(4)
+                };
                 VOp::Append((0..n).map(|_| v(rng)).collect())
             }
             1 if rng.chance(1, 3) => VOp::Clear,
@@ -593,7 +600,14 @@ pub fn gen_body(rng: &mut Rng, mut len: usize, n: usize, vmax: u32, oob: bool, t
 
 pub fn gen_txn(rng: &mut Rng, len: usize, vmax: u32, oob: bool, trav: bool, maxlen: usize) -> VOp {
     // mostly short bodies; now and then a transaction that records dozens of diffs (more than 32, 64, 128)
-    let n = if rng.chance(1, 40) { rng.range(33, 140) } else { rng.below(5) };
+    // (scale mode, signalled by a value domain of 20,000: one transaction in five records thousands of diffs)
+    let n = if vmax >= 20_000 && rng.chance(1, 5) {
+        rng.range(1100, 5000)
+    } else if rng.chance(1, 40) {
+        rng.range(33, 140)
+    } else {
+        rng.below(5)
+    };
     let body = gen_body(rng, len, n, vmax, oob, trav, maxlen);
     let end = match rng.below(10) {
         0..=5 => TxEnd::Commit,
